@@ -2,7 +2,9 @@ package kit
 
 import (
 	"context"
+	"sync"
 	"sync/atomic"
+	"time"
 )
 
 // TrigCtx is a cancellable context that can be told to become cancelled at
@@ -57,3 +59,31 @@ func (c *TrigCtx) Err() error {
 	c.hit("ctx.Err")
 	return c.Context.Err()
 }
+
+// OpaqueCtx is a hand-written context.Context: it is not one of the standard
+// library's own context types and has its own Done channel, so a context
+// derived from it (context.WithCancel etc.) costs one watcher goroutine inside
+// package context that lives until the DERIVED context is cancelled or this
+// one is.  Code that forgets to release a derived context leaks nothing
+// visible with a standard parent; with a parent like this it leaks a goroutine
+// per derivation (request-scoped framework contexts, merged contexts and
+// older signal contexts are of this kind).
+type OpaqueCtx struct {
+	done chan struct{}
+	once sync.Once
+}
+
+func NewOpaqueCtx() *OpaqueCtx { return &OpaqueCtx{done: make(chan struct{})} }
+
+func (c *OpaqueCtx) Deadline() (time.Time, bool) { return time.Time{}, false }
+func (c *OpaqueCtx) Done() <-chan struct{}       { return c.done }
+func (c *OpaqueCtx) Err() error {
+	select {
+	case <-c.done:
+		return context.Canceled
+	default:
+		return nil
+	}
+}
+func (c *OpaqueCtx) Value(interface{}) interface{} { return nil }
+func (c *OpaqueCtx) Cancel()                       { c.once.Do(func() { close(c.done) }) }
